@@ -312,6 +312,24 @@ def engine(pid, spec, tier, ws, out, log_dir, known):
                 findings += [x for x in f if x.prop == pid]
                 npaths += n
                 e2.functions.append("<%s as CredentialStore>::{update_credential, save_credential}::{closure#0}" % ("Option<Passkey>" if kind == "option" else "MemoryStore"))
+        if "requiredness" in todo:
+            tf = e2.mir_of("passkey-types")
+            f, n = C.check_member_requiredness(tf)
+            findings += f
+            npaths += n
+            e2.functions.append("the serde_workaround!-generated visit_map bodies (end-of-map resolution of every member)")
+        if "base64" in todo:
+            tf = e2.mir_of("passkey-types")
+            f, n = C.check_base64_wrappers(tf)
+            findings += f
+            npaths += n
+            e2.functions.append("passkey_types::encoding::{base64, base64url, try_from_base64, try_from_base64url} (MIR)")
+        if "fixed_slices" in todo:
+            e2.dump_mir()
+            f, n, nq = C.check_fixed_size_slices(e2.fns, e2.get_solver())
+            findings += f
+            npaths += n
+            e2.functions.append("public_key_der_from_cose_key, private_key_from_cose_key (MIR, loop bound 4 visits)")
         if "setters" in todo:
             tf = e2.mir_of("passkey-types")
             src = open(os.path.join(e2.ws.ws, "passkey-types/src/ctap2/attestation_fmt.rs")).read()
